@@ -16,7 +16,7 @@ BUILDER_C02 = ["builder_doc", "builder_equiv_dict", "builder_run_callsOfDoc", "b
 FILES = {
     "C01": ["C01", "C01Ops", ("Builder", BUILDER_C01)], "C02": ["C02", ("Builder", BUILDER_C02)], "C03": ["C03"], "C04": ["C04"], "C05": ["C05"], "C06": ["C06"],
     "C07": ["C07"], "C08": ["C08"], "C09": ["C09", "C09Real"], "C10": ["C10"], "C11": ["C11"], "C12": ["C12"],
-    "C13": ["C13", "C13Real"], "C14": ["C14"], "C15": ["C15"], "C16": ["C16"], "C17": ["C17"], "C18": ["C18", ("Builder", BUILDER_C18)],
+    "C13": ["C13", "C13Real"], "C14": ["C14", "C14Close"], "C15": ["C15"], "C16": ["C16"], "C17": ["C17"], "C18": ["C18", ("Builder", BUILDER_C18)],
     "C19": ["C19"], "C20": ["C20"],
 }
 T = lambda mod, names: [{"module": f"DemesVerif.Theorems.{mod}", "name": f"Demes.Tables.{n}"} for n in names]
@@ -126,6 +126,7 @@ GUARDS_RECORDS_RESOLVE = [
     "guards_graph_post_init_default", "guards_tie_graph_post_init"]
 G_RESOLVE = T("TablesGuards", GUARDS_RESOLVE) + T("TablesGuardsMatrices", GUARDS_MATRICES) \
     + T("TablesGuardsRecords", GUARDS_RECORDS_SHAPE) + T("TablesGuardsRecordsResolve", GUARDS_RECORDS_RESOLVE)
+G_DEME_EPOCHS = lambda: T("TablesGuardsDemeEpochs", GUARDS_DEME_EPOCHS)
 # `str.isidentifier` beyond ASCII: the interpreter's identifier classes, regenerated on every run (Generated/Ident.lean)
 IDENT_TABLES = T("TablesIdent", ["tables_valid_deme_name", "tables_xid_start", "tables_xid_continue", "tables_xid_start_wf",
                                  "tables_xid_continue_wf", "tables_xid_start_sub_continue", "isIdStart_ascii", "isIdCont_ascii"])
@@ -135,12 +136,21 @@ GUARDS_BUILDER = ["builder_tie_init_dict", "builder_tie_add_deme_dict", "builder
                   "builder_tie_init", "builder_tie_add_deme", "builder_tie_add_migration", "builder_tie_add_pulse",
                   "builder_tie_call", "builder_tie_history", "builder_signatures", "builder_call_arguments",
                   "builder_parameter_kinds", "builder_sentinel", "builder_fromdict_body"]
+# closeness of the event records (C14: Theorems/TablesGuardsRecordsClose.lean): Generated/GuardsRecordsClose.lean
+GUARDS_RECORDS_CLOSE = ["guards_record_assert_close_returns", "guards_tie_split_assert_close", "guards_tie_split_isclose",
+                        "guards_tie_branch_assert_close", "guards_tie_branch_isclose", "guards_tie_merge_assert_close",
+                        "guards_tie_merge_isclose", "guards_tie_admix_assert_close", "guards_tie_admix_isclose",
+                        "guards_tie_record_isclose", "guards_record_class_test"]
+# whole body of `Deme._check_epochs` (C01, C03: Theorems/TablesGuardsDemeEpochs.lean): Generated/GuardsDemeEpochs.lean
+GUARDS_DEME_EPOCHS = ["guards_deme_check_epochs_shape", "guards_deme_check_epochs_at_construction", "guards_tie_deme_check_epochs",
+                      "guards_deme_check_epochs_meaning", "guards_deme_check_epochs_is_v5_alignment",
+                      "guards_deme_check_epochs_valid", "guards_deme_check_epochs_resolved"]
 CODEC_TABLES = T("TablesCodec", ["tables_codec_yaml_load", "tables_codec_yaml_dump", "tables_codec_calls"])
 EXTRA = {
-    "C01": T("TablesResolve", RESOLVE_TABLES) + T("TablesConst", ["tables_rel_tol"]) + G_RESOLVE + IDENT_TABLES,
+    "C01": T("TablesResolve", RESOLVE_TABLES) + T("TablesConst", ["tables_rel_tol"]) + G_RESOLVE + IDENT_TABLES + G_DEME_EPOCHS(),
     "C02": T("TablesResolve", RESOLVE_TABLES) + T("TablesGuardsBuilder", GUARDS_BUILDER)
     + T("TablesFacts", ["fact_builder_resolve_only_passes_data"]),
-    "C03": T("TablesResolve", RESOLVE_TABLES) + T("TablesConst", ["tables_rel_tol"]) + G_RESOLVE + IDENT_TABLES,
+    "C03": T("TablesResolve", RESOLVE_TABLES) + T("TablesConst", ["tables_rel_tol"]) + G_RESOLVE + IDENT_TABLES + G_DEME_EPOCHS(),
     "C05": T("TablesResolve", RESOLVE_TABLES[:7]) + T("TablesGuardsSimplify", GUARDS_SIMPLIFY),
     "C06": T("TablesResolve", RESOLVE_TABLES[:7]),
     "C07": T("TablesMs", MS_TABLES) + T("TablesGuardsToMs", GUARDS_TO_MS),
@@ -152,7 +162,9 @@ EXTRA = {
     "C11": T("TablesFacts", ["fact_in_generations_copies_first"]) + T("TablesGuardsRescale", GUARDS_RESCALE),
     "C12": T("TablesConst", ["tables_rel_tol"]) + T("TablesGuardsMatrices", GUARDS_MATRICES),
     "C13": T("TablesConst", ["tables_rel_tol"]) + T("TablesGuardsSizeAt", GUARDS_SIZE_AT),
-    "C14": T("TablesResolve", EVENT_TABLES) + T("TablesGuardsViews", GUARDS_VIEWS) + T("TablesGuardsRecords", GUARDS_RECORDS),
+    "C14": T("TablesResolve", EVENT_TABLES) + T("TablesGuardsViews", GUARDS_VIEWS) + T("TablesGuardsRecords", GUARDS_RECORDS)
+           + T("TablesGuardsRecordsClose", GUARDS_RECORDS_CLOSE)
+           + T("TablesGuardsClose", ["guards_tie_isclose_deme_proportions"]) + T("TablesConst", ["tables_rel_tol", "tables_abs_tol"]),
     "C15": T("TablesFacts", ["fact_rename_demes_copies_first"]) + T("TablesGuardsRename", GUARDS_RENAME) + IDENT_TABLES[:3],
     "C18": T("TablesFacts", ["fact_fromdict_copies_first", "fact_builder_resolve_passes_data", "fact_fromdict_copy_is_unaliased", "fact_deepcopy_unaliased_shape", "fact_builder_resolve_only_passes_data"])
     + T("TablesGuardsBuilder", GUARDS_BUILDER),
